@@ -339,6 +339,8 @@ class C15(Check):
                 ctx.count("e3_private_path_promoted")
 
     def _e3(self, ex, nproc, pre, bufsize, ctx, first, replay_sched):
+        sampled = []
+
         def finish(sched, st):
             case = ["e3", nproc, pre, bufsize, list(sched)]
             ctx.cur = case
@@ -356,6 +358,9 @@ class C15(Check):
             if k:
                 ctx.violation(k + "/after-race", case, f"fresh load after the race got {res!r}")
             ctx.outcome(h64((st["results"], st["snapshot"])))
+            if not sampled:
+                sampled.append(1)
+                ctx.sample({"e3_schedule": list(sched), "processes": nproc, "pre_state": pre, "buffer": bufsize, "results": [r[0] for r in st["results"]]})
 
         if replay_sched is not None:
             st = ex.run(tuple(replay_sched), to_completion=True)
